@@ -287,6 +287,40 @@ def check_C06(ctx, w):
     ft = gen.fault_tests(uni, ctx.rng, ctx.q(1200, 20000))
     seq_pipeline(ctx, w, ft, ["Conf_C06", "Conf_C06F"], label="fault")
     count_events(ctx, w, "fault", inner=lambda e: True)
+    fault_model(ctx, w)
+
+
+FAULT_CFG = """SPECIFICATION Spec
+CONSTANTS
+  Slots = {%(slots)s}
+  KVals = {%(kvals)s}
+  AVals = {0, 1}
+  MaxOps = %(maxops)d
+  Dev = {%(dev)s}
+INVARIANTS FaultSafeOrKnown EarlyFaultSafe QuiescentOK
+CHECK_DEADLOCK FALSE
+"""
+
+
+def fault_model(ctx, w):
+    """C06 (storage faults) at design level (spec/SodFault.tla): one failing file-system step in one call of every history
+    of the bounded model, the call carrying on the way the code does.  With the known deviation enabled "no trace, or
+    noticed and restorable, or the recorded shape at the recorded position" must be an invariant; without it the model
+    must exhibit the finding."""
+    known = [k["deviation"] for k in load_known()["findings"] if k.get("status") == "known" and k["property"] == "C06"]
+    kw = dict(slots=ctx.q("1, 2", "1, 2, 3"), kvals=ctx.q("0, 1", "0, 1, 2"), maxops=ctx.q(3, 4))
+    r = vlib.tlc("SodFault", FAULT_CFG % dict(dev=", ".join('"%s"' % d for d in known), **kw), w.sub("faultm"), workers=vlib.NCPU, timeout=1500, heap="8g")
+    ctx.mc_states += r.distinct
+    ctx.mc_transitions += r.generated
+    ctx.extra_cov["fault_model_states"] = r.distinct
+    log("  [SodFault] design-level storage-fault model with deviations {%s}: %d states, %s" %
+        (", ".join(known), r.distinct, "no trace / noticed and restorable / known shape after every failing step" if r.completed else "** " + ", ".join(r.violated)))
+    if not r.completed:
+        raise vlib.Inconclusive("the design-level storage-fault model has a failing step outside the recorded shape (model result, to be confirmed on the code):\n" + r.out[-2500:])
+    if known:
+        r0 = vlib.tlc("SodFault", FAULT_CFG % dict(dev="", slots="1, 2", kvals="0, 1", maxops=3), w.sub("faultm0"), workers=4, timeout=600, heap="4g")
+        log("  [SodFault] without deviation the model exhibits the finding: %s" % bool(r0.violated))
+        ctx.extra_cov["fault_model_exhibits_known_finding"] = bool(r0.violated)
 
 
 def check_C15(ctx, w):
@@ -366,6 +400,8 @@ def check_C16(ctx, w):
     # case constraints that only a custom schema can give: lower + unique on a plain string field, upper on an optional string (*string)
     tests += rnd_tests(ctx, ctx.q(40, 600), label="cz", nops=ctx.q(25, 40), case_heavy=True, fields=["N", "Z"], p_query=0.1, cust=6)
     tests += rnd_tests(ctx, ctx.q(40, 600), label="cr", nops=ctx.q(25, 40), case_heavy=True, fields=["N", "R"], p_query=0.1, cust=7)
+    # ... and BOTH constraints on one field (applied one after the other wherever a value is canonicalised)
+    tests += rnd_tests(ctx, ctx.q(40, 600), label="cb", nops=ctx.q(25, 40), case_heavy=True, fields=["N", "Z"], p_query=0.1, cust=8)
     seq_pipeline(ctx, w, tests, ["Conf_C16"])
 
 
@@ -395,6 +431,22 @@ def check_C12(ctx, w):
             if ctx.rng.random() < 0.12:
                 ops.append({"op": "switch", "cfg": {"cache": ctx.rng.random() < 0.5, "async": ctx.rng.random() < 0.5, "thr": 100000, "tmo_ms": 3600000}, "variant_only": True})
         t["ops"] = ops
+    # ... and every ordered TRIPLE of (cache, async) settings, each with writes, deletes and reads in between: what one
+    # setting leaves behind (cached copies, pending writes) must not be served by a later one
+    four = [(c, a) for c in (False, True) for a in (False, True)]
+    triples = [(x, y, z) for x in four for y in four for z in four]
+    st = rnd_tests(ctx, len(triples) * ctx.q(2, 6), label="swt", nops=ctx.q(16, 24), p_query=0.05)
+    for i, t in enumerate(st):
+        n = len(t["ops"])
+        cut = {n // 4: 0, n // 2: 1, (3 * n) // 4: 2}
+        ops = []
+        for j, o in enumerate(t["ops"]):
+            if j in cut:
+                c, a = triples[i % len(triples)][cut[j]]
+                ops.append({"op": "switch", "cfg": {"cache": c, "async": a, "thr": 100000, "tmo_ms": 3600000}, "variant_only": True})
+            ops.append(o)
+        t["ops"] = ops
+    sw += st
     basecfg = dict(cache=False, thr=100000, tmo_ms=3600000, gz=False, lc=False, ext=".json", plain=False)
     basecfg["async"] = False
     for t in tests:
@@ -433,6 +485,7 @@ def check_C05(ctx, w):
     tests += gen_tests(ctx, ctx.q(100, 3000), gen.crash_test, "cr", nops=ctx.q(3, 5))
     # asynchronous configurations: crash points of deletes, FlushAll / FlushAllAndCommit / Commit and Close, and between calls with writes pending
     tests += gen_tests(ctx, ctx.q(80, 2000), gen.async_crash_test, "acr", nops=ctx.q(3, 5))
+    tests += gen_tests(ctx, ctx.q(24, 300), gen.async_handover_test, "aho")
     seq_pipeline(ctx, w, tests, ["Conf_C05"])
     count_events(ctx, w, "crash")
     disk_model(ctx, w)
@@ -930,7 +983,9 @@ def check_C10(ctx, w):
     tests += gen_tests(ctx, ctx.q(100, 1500), gen.aux_async_test, "xas", nops=ctx.q(14, 24))
     # "Close (for every collection)": a second collection with pending writes of its own; FlushAll* of one collection, Close of both
     tests += aux_tests(ctx, ctx.q(150, 2000), nops=ctx.q(20, 35), cfgs=[(False, True), (True, True)], p_reopen=0.15, p_del=0.25)
-    seq_pipeline(ctx, w, tests, ["Conf_C10", "Conf_X", "Conf_Drop"])
+    # a damaged asynchronous collection whose finder handle is repaired and kept: the flusher works for it too
+    tests += gen_tests(ctx, ctx.q(60, 800), gen.damage_live_test, "dl")
+    seq_pipeline(ctx, w, tests, ["Conf_C10", "Conf_X", "Conf_Drop", "Conf_C11"])
     multi_model(ctx, w)
 
 
@@ -1053,8 +1108,13 @@ def check_C18(ctx, w):
             for _ in range(3 + variant):
                 ops.append(ctx.rng.choice([{"op": "put", "slot": g.slot(), "o": g.obj()}, {"op": "del", "slot": g.slot()}, g.batch()]))
             ops += [{"op": "obs"}, {"op": "reopen", "close": True, "create": variant % 2 == 0}, {"op": "obs"}]
+            # the sweeps query the fields the recorded history varied (index keys written by the pinned release are used)
+            try:
+                varied = [f for f in json.load(open(os.path.join(d, "test.json")))["fields"] if f not in ("K", "S")]
+            except (OSError, KeyError, ValueError):
+                varied = []
             gt.append({"id": "%s-%d" % (os.path.basename(d), variant), "adopt": d, "cfg": meta["cfg"], "ops": ops,
-                       "fields": ["K", "S"] + g.flds[:1]})
+                       "fields": ["K", "S"] + (varied or g.flds[:1])})
     seq_pipeline(ctx, w, gt, ["Conf_C01", "Conf_C02", "Conf_C03", "Conf_C04", "Conf_C13", "Conf_C18"], label="golden")
     ctx.extra_cov["golden_directories"] = len(set(t["adopt"] for t in gt))
     # directory names of 10 collection types with awkward names (acronyms, digits, underscore, non-ASCII) x LowercaseNames,
@@ -1104,7 +1164,7 @@ META = {
     "C04": dict(level="model_checking", technique=TECH,
                 text="ClosedDurable/SyncDurable are checked by TLC on the design model; every history of the bounded model gets close+reopen (with/without Create) or, in sync mode, abandonment at every position, with the complete sweep before and after compared by TLC (SameObs: listing, every lookup, every operator x probe, order by key, AssignIndex); random histories use 64-bit and nanosecond extremes"),
     "C06": dict(level="model_checking", technique=TECH,
-                text="RefusedNoop (a refused call changes no variable) is an action property of the design model; on the real code every rejected write of every model transition is followed at once by the complete sweep, which TLC compares with the state rebuilt from acknowledged writes (reads, searches, order, Control when nothing can be pending)"),
+                text="RefusedNoop (a refused call changes no variable) is an action property of the design model; on the real code every rejected write of every model transition is followed at once by the complete sweep, which TLC compares with the state rebuilt from acknowledged writes (reads, searches, order, Control when nothing can be pending); storage faults: design-level model SodFault (one failing file-system step per history; no trace / noticed and restorable / known shape K02 at its recorded position is an invariant, and the model exhibits K02 without the deviation) and a single injected fault at every file-system call of the last call of short histories on the real code, judged by TLC (FaultOK for failed calls, AbsorbedOK for calls that returned success) with the position of the fault recorded"),
     "C07": dict(level="model_checking", technique=TECH,
                 text="BatchRefines (the code's validation rule lies between MustReject and MustAccept of the abstract statement) is checked by TLC on every reachable state x every batch of the bounded model; every such batch is executed on the real code and TLC checks n in {0,len}, mandatory rejection / acceptance, and, for Bulk, chunk-wise application in arrival order stopping at the first failing chunk"),
     "C13": dict(level="model_checking", technique=TECH,
@@ -1165,6 +1225,17 @@ def run_check(pid, tier, seed):
     except vlib.Inconclusive as e:
         log("INCONCLUSIVE:", str(e)[:6000])
         write_evidence(ctx, inconclusive=str(e)[:500])
+        return 2
+    except Exception as e:
+        # a failure of the machinery itself is never a verdict on the code
+        import traceback
+        log("INCONCLUSIVE (machinery failure):", traceback.format_exc()[-3000:])
+        write_evidence(ctx, inconclusive="machinery failure: " + repr(e)[:400])
+        return 2
+    if vlib.SHARD_TIMEOUTS and not ctx.failures:
+        msg = "%d shard(s) of real-code executions ran out of time before finishing their tests; nothing they completed violates the property" % len(vlib.SHARD_TIMEOUTS)
+        log("INCONCLUSIVE:", msg)
+        write_evidence(ctx, inconclusive=msg)
         return 2
     write_evidence(ctx)
     if ctx.failures:
